@@ -222,10 +222,11 @@ prop("C06",
      family="codec",
      mc=lambda tier: [("MC_Codec", "MC_Codec.cfg")],
      driver=lambda tier, seed, gen, out: ["codec", "-mode", "decode", "-out", out, "-seed", str(seed)] +
-     _t(tier, ["-span", "400", "-random", "150"], ["-span", "70000", "-random", "20000"]),
+     _t(tier, ["-span", "400", "-random", "150", "-n", "600"], ["-span", "70000", "-random", "20000", "-n", "40000"]),
      trace=("Trace_Codec", "Trace_Codec.cfg"),
      required=["accept", "reject", "via:attr", "via:soft", "via:wrap", "cls:int", "cls:frac", "cls:exp", "cls:null",
-               "cls:true", "cls:str", "cls:time", "cls:b64", "cls:b64nc", "cls:arr", "cls:obj"],
+               "cls:true", "cls:str", "cls:time", "cls:b64", "cls:b64nc", "cls:arr", "cls:obj", "full:accept",
+               "full:reject", "shape:ident", "shape:list", "shape:null", "shape:identbadtype"],
      level_text="The decode table (kind x nullable x JSON literal class -> allowed outcomes) is a TLA+ operator; "
                 "integers are (anchor, offset) pairs so that every width boundary +-2 up to 2^70 and the 8/16-bit "
                 "ranges are exact in TLC's 32-bit arithmetic. TLC checks an intended decoder against it (unique "
@@ -398,6 +399,66 @@ prop("C12",
      trusted=["the Go race detector"],
      coverage=False,
      )
+
+
+# ---------------------------------------------------------------------------------------------
+# C01 C05 C13 codec payload modes
+_codec_common = dict(family="codec", mc=lambda tier: [("MC_Codec", "MC_Codec.cfg")],
+                     trace=("Trace_Codec", "Trace_Codec.cfg"), coverage=False)
+prop("C01",
+     driver=lambda tier, seed, gen, out: ["codec", "-mode", "roundtrip", "-out", out, "-seed", str(seed), "-n",
+                                          _t(tier, "250", "40000")],
+     required=["rt:soft:resource", "rt:soft:document", "rt:wrap:resource", "rt:wrap:document", "rt:zero", "rt:nil",
+               "rt:table", "rt:random"],
+     level_text="Model level: the decode table accepts the literal the library writes for every in-range value of "
+                "every integer kind and returns that value (MC_Codec InvRoundTrip, anchors +-2 up to 2^64). Code "
+                "level: resources of a type holding all 28 attribute kinds, a to-one and a to-many relationship - "
+                "struct-backed and soft, in schemas mixing both flavours - are filled with zero values, nil pointers, "
+                "the boundary tables and seeded random values (full 64-bit range, NUL / HTML / multi-byte strings, "
+                "zoned sub-second instants in years 1..9999, byte strings, ids with characters JSON must escape), "
+                "marshaled with all fields and all relationship data through MarshalResource and MarshalDocument, "
+                "unmarshaled against the same schema and compared field by field by independent means; TLC judges "
+                "every recorded round trip.",
+     level_note="Value fidelity inside a class of values is exploration (sampling), as DESIGN.md section 8 says: TLC's "
+                "part is the table and the verdict over the recorded booleans, the comparison itself is the "
+                "driver's (math/big, bytes, time.Equal).",
+     assumptions=["a non-nil pointer to a nil byte slice is outside the domain", "ids and strings are valid UTF-8"],
+     **_codec_common)
+prop("C05",
+     driver=lambda tier, seed, gen, out: ["codec", "-mode", "robust", "-out", out, "-seed", str(seed), "-n",
+                                          _t(tier, "3000", "1500000")],
+     required=["out:ok", "out:err", "cls:json", "cls:notjson", "origin:slot", "origin:prefix", "origin:random",
+               "origin:deep", "origin:edit"] + ["entry:" + e for e in
+                                                 ["UnmarshalDocument", "UnmarshalResource", "UnmarshalPartialResource",
+                                                  "UnmarshalCollection", "UnmarshalIdentifier", "UnmarshalIdentifiers",
+                                                  "NewRequestPOST", "NewRequestPATCH", "NewRequestGET"]],
+     level_text="The specification states FeedOK for one call of an entry point on a byte string: a result or an "
+                "error, never both, never a panic, an error for anything that is not JSON, and a result that conforms "
+                "to the schema (type in the schema, every attribute of exactly the declared Go type or nil if "
+                "nullable, to-one a string, to-many a string slice); DecodeRobust says the same of one attribute "
+                "decode. The driver feeds every entry point (9, incl. NewRequest with POST / PATCH / GET) with seven "
+                "valid payload trees, every single slot of each replaced by each of the six JSON kinds or removed "
+                "(about 2,000 trees), unknown / missing types, unknown fields, duplicate keys, every strict prefix, "
+                "nesting-depth bombs, and seeded bit flips, splices, deletions and random bytes; TLC judges each call.",
+     level_note="Known finding: a bytes attribute that is not a base64 string panics (pinned by "
+                "TestAttrUnmarshalToType). The all-bytes quantifier is explored by seeded corruption, not enumerated.",
+     assumptions=["schema non-nil", "conformance is computed by the driver with reflect on the returned resources"],
+     **_codec_common)
+prop("C13",
+     driver=lambda tier, seed, gen, out: ["codec", "-mode", "partial", "-out", out, "-seed", str(seed), "-n",
+                                          _t(tier, "1500", "150000")],
+     required=["full:accept", "full:reject", "part:accept", "part:reject", "shape:absent", "shape:nodata", "shape:null",
+               "shape:ident", "shape:list", "shape:badshape", "impl:soft", "impl:wrap"],
+     level_text="PartialOK: accepted iff full unmarshaling accepts; the result's type has the schema type's name, "
+                "exactly the attributes present in the payload and exactly the relationships whose object carries a "
+                "data member (explicit null included), each with the schema's definition and the value full "
+                "unmarshaling gives. The driver builds payloads over the all-kinds type: every single attribute "
+                "alone, seeded subsets, explicit nulls, out-of-range and unknown members, and all 49 combinations of "
+                "relationship-object shapes (absent, links/meta only, data null, identifier, list with repeats, "
+                "wrong shape, identifier of another type) on soft and struct-backed schemas; TLC judges each.",
+     level_note="Values are compared with full unmarshaling's by the driver; key sets are judged by TLC.",
+     assumptions=["payloads are resource objects of the all-kinds type"],
+     **_codec_common)
 
 
 def run(pid, tier, seed):
